@@ -348,6 +348,15 @@ fn mutate_text(rng: &mut Rng, data: &[u8], seps: &[char]) -> (Vec<u8>, String) {
             let mut f: Vec<String> = lines[i].split(sep).map(|s| s.to_string()).collect();
             let j = rng.below(f.len());
             let what = match rng.below(5) {
+                3 if rng.chance(0.15) => {
+                    // a field longer than the 4096-byte buffers of the CSV readers
+                    let unit = *rng.pick(&["x", "あ", "x,", "\"\""]);
+                    let n = (4000 + rng.below(1200)) / unit.len();
+                    let v = if unit == "x," { format!("\"{}\"", unit.repeat(n)) } else { unit.repeat(n) };
+                    let w = format!("field {j} of line {i} replaced by {} bytes of {:?}", v.len(), unit);
+                    f[j] = v;
+                    w
+                }
                 4 if f[j].trim().parse::<i64>().is_ok() => {
                     // the neighbours of a number: one past the largest id, one more cell than declared, ...
                     let n: i64 = f[j].trim().parse().unwrap();
@@ -766,6 +775,10 @@ pub fn c19_case(ctx: &mut Ctx, rng: &mut Rng, xdir: &str) {
         c19_cli(ctx, rng, &cli, xdir);
         return;
     }
+    if ctx.index % 25 == 7 {
+        crate::trainprops::c19_feed_trainer(ctx, rng);
+        return;
+    }
     let surf = ["EOS", "a", "東京", " ", "x y", "EOS2", ",", "\"q\"", "é", "𠮷", "E", "OS", "1", "\u{FEFF}", "\u{FEFF}a", "a", "東京"];
     let feat = ["EOS", "名詞,一般", "", " ", "a,b,\"c,d\"", "*", "助詞,ニ", "f\u{3000}g"];
     let n = rng.below(8);
@@ -890,6 +903,17 @@ fn c19_cli(ctx: &mut Ctx, rng: &mut Rng, cli: &str, xdir: &str) {
     let cfg = GenCfg { covered: true, ..Default::default() };
     let mut case = gen_tokcase(rng, &cfg, 30, false);
     case.user = None;
+    // features ending with an empty cell (a trailing comma, a trailing `""`), as MeCab dictionaries have them
+    for r in case.spec.lex.iter_mut() {
+        if rng.chance(0.2) {
+            r.feat.push_str(if rng.chance(0.5) { "," } else { ",\"\"" });
+        }
+    }
+    for r in case.spec.unk.iter_mut() {
+        if rng.chance(0.2) {
+            r.feat.push(',');
+        }
+    }
     let o = case.opts[0];
     let dir = format!("{xdir}/cli-{}-{}", ctx.shard, ctx.index);
     let _ = std::fs::create_dir_all(&dir);
@@ -992,11 +1016,16 @@ fn c19_cli(ctx: &mut Ctx, rng: &mut Rng, cli: &str, xdir: &str) {
 // ---------------------------------------------------------------- C20
 
 pub fn c20_case(ctx: &mut Ctx, rng: &mut Rng) {
-    let k = 1 + rng.below(6);
+    // 1-6 templates, now and then 9-12 (more than the 8 lanes of the raw connector, a pre-summed part in the dual)
+    let k = if rng.chance(0.15) { 9 + rng.below(4) } else { 1 + rng.below(6) };
+    if k > 8 {
+        ctx.bucket("more_than_8_templates");
+    }
     let mut templates: Vec<(String, String)> = vec![];
     for i in 0..k {
         let mk = |rng: &mut Rng, s: char| -> String {
-            match rng.below(7) {
+            match rng.below(8) {
+                7 => format!("%{s}[{}]", rng.below(2)), // no literal prefix: BOS/EOS expands to the empty text
                 0 => format!("B{i}:%{s}[0]"),
                 1 => format!("B{i}:%{s}[0],%{s}[1]"),
                 2 => format!("B{i}:%{s}?[1]"),
@@ -1096,6 +1125,10 @@ pub fn c20_case(ctx: &mut Ctx, rng: &mut Rng) {
         model += &format!("{}\tB{ki}:zzz/B{ki}:yyy\n", wstr(rng));
         model += &format!("{}\tU0:名詞\n", wstr(rng));
         model += &format!("{}\tBOS/EOS/B{ki}:x\n", wstr(rng));
+    }
+    if rng.chance(0.5) {
+        // the weight of BOS/EOS followed by BOS/EOS (it concerns the id pair (0, 0) only)
+        model += &format!("{}\tBOS/EOS/BOS/EOS\n", wstr(rng));
     }
     let cj = |d: String| json!({"feature.def": fd, "right-id.def": idfile(&right_ids), "left-id.def": idfile(&left_ids), "model.def": model, "cost_factor": factor, "detail": d});
     // ---- error cases: gap, malformed id line, id 0 not BOS/EOS
